@@ -16,6 +16,17 @@ watchdog covers loops inside C code).  Counted per call: all line events in pyat
 the number of times the decoder's own loop head is reached (`while` line located through the
 AST of the function under test) resp. the number of `_parse` frames.
 
+Calls that hand a network-controlled *string* to C code (regular expressions, `int()`, codecs) cannot be
+bounded by a line budget or a Python signal handler: the per-service discovery pipeline (`handle_response`
+-> protocol handler, `discover` -> device_info extractors + `service_info`, `get_unique_id`) for every TXT
+key the protocol modules read, the string parsers (`_get_flags`, `parse_features`, `lookup_version`,
+`lookup_os`, `parse_request`, `parse_response`, IDNA labels) and every whole-scan isolation run are
+therefore executed in a child process (`python -m harness.c05 --child`) under a wall-clock budget that
+grows linearly with the input size; a child that does not answer is killed and that is the observation.
+Hostile strings = near-matches (repeats pumped 1/6/20/40/60 times, failing suffix / infix) of every regular
+expression that `tools/gen/c05.py` extracts from the tree under test, plus long digit runs and repeated
+separators.
+
 * correspondence: outcome class (value / exception class), stream position or bytes left, and
   the loop-iteration count are compared with the Lean driver on the same bytes.
 * direct oracle (model-independent): the call returns or raises an ordinary exception
@@ -36,8 +47,11 @@ import struct
 import sys
 import textwrap
 
-PROPS_FILES = ["PyatvModel/Props/C05.lean", "PyatvModel/Props/C05Dns.lean", "PyatvModel/Props/C05Discover.lean"]
+PROPS_FILES = ["PyatvModel/Props/C05.lean", "PyatvModel/Props/C05Dns.lean", "PyatvModel/Props/C05Discover.lean",
+               "PyatvModel/Props/C05Regex.lean"]
+GEN_MODULES = ["c05", "c02"]       # Gen/C05Regex (patterns applied to network strings), Gen/C02Consts (header layouts)
 LEAN_TARGETS = ["PyatvModel.Props.C05", "PyatvModel.Props.C05Dns", "PyatvModel.Props.C05Discover",
+                "PyatvModel.Props.C05Regex",
                 "PyatvModel.C05.Driver"]
 DRIVER = "Driver/C05.lean"
 
@@ -47,7 +61,8 @@ RULE = ("per decoder: every byte string up to length k over the decoder's dispat
         "(length bytes, header counts, compression pointers incl. self / forward / cyclic, truncation, "
         "nesting depth); discovery: 1..4 well-formed devices x one hostile host (garbage datagrams, pointer "
         "loops, TXT values on which handlers / device_info / service_info raise) x multicast and unicast "
-        "scanner. non-trivial = the decoder raised, or looped more than once, or a hostile host was present; "
+        "scanner; every TXT key read by a protocol module x near-match strings of every extracted regex (in a child "
+        "process, wall-clock budget). non-trivial = the decoder raised, or looped more than once, or a hostile host was present; "
         "distinct = (decoder, bytes) resp. (mode, devices, hostile payload, order)")
 ASSUMPTIONS = [
     "a datagram transport may stop delivering once an exception escapes datagram_received (asyncio proactor "
@@ -58,6 +73,8 @@ ASSUMPTIONS = [
     "direct oracle runs the real ones and only requires return-or-ordinary-exception within the budget",
     "HTTP header values are ASCII and Content-Length is digits, '-digits' or not a number (int() accepts more)",
     "RecursionError is an ordinary exception (read_tlv, DMAP _parse, OPACK _unpack recurse per item)",
+    "wall-clock budget of a child call: 6 s + 20 ms per item + 0.2 ms per input byte (normal: milliseconds); "
+    "CPython's re does no more work than the exhaustive backtracking search bounded in Props/C05Regex",
 ]
 TRUSTED = ["harness/c05.py line-event tracer (sys.settrace) and AST location of loop heads",
            "harness/c12.py fakes and record rendering (reused for the discovery runs)"]
@@ -838,6 +855,328 @@ def run_pinned_witnesses(ctx):
 
 
 # ---------------------------------------------------------------------------------------------
+# child process: calls whose time can be spent inside one C-level call (regex, int(), codecs) are made in a
+# child with a wall-clock budget; a child that does not answer in time is killed — that is the observation
+# ---------------------------------------------------------------------------------------------
+CHILD_BASE_S = 6.0            # a batch normally takes milliseconds; generous because the machine is shared
+CHILD_PER_ITEM_S = 0.02
+CHILD_PER_BYTE_S = 0.0002     # budget grows linearly with the input size
+
+
+class Child:
+    """`python -m harness.c05 --child`: one JSON task per line in, one JSON answer per line out."""
+
+    def __init__(self):
+        self.p = None
+        self.buf = b""
+        self.kills = 0
+
+    def start(self):
+        import os
+        import subprocess
+        from harness.core import REPO, VERIF
+        self.buf = b""
+        self.p = subprocess.Popen([sys.executable, "-u", "-m", "harness.c05", "--child"], cwd=VERIF,
+                                  env=dict(os.environ, VERIF_REPO=REPO), stdin=subprocess.PIPE,
+                                  stdout=subprocess.PIPE, stderr=subprocess.DEVNULL)
+        if self._readline(60) != b"ready":
+            raise RuntimeError("C05 child process did not start")
+
+    def _readline(self, timeout):
+        import os
+        import select
+        import time
+        end = time.monotonic() + timeout
+        fd = self.p.stdout.fileno()
+        while b"\n" not in self.buf:
+            left = end - time.monotonic()
+            if left <= 0:
+                return None
+            r, _, _ = select.select([fd], [], [], left)
+            if not r:
+                return None
+            chunk = os.read(fd, 1 << 16)
+            if not chunk:
+                return None
+            self.buf += chunk
+        line, self.buf = self.buf.split(b"\n", 1)
+        return line
+
+    def call(self, task, budget):
+        if self.p is None or self.p.poll() is not None:
+            self.start()
+        try:
+            self.p.stdin.write((json.dumps(task) + "\n").encode())
+            self.p.stdin.flush()
+        except OSError:
+            self.close()
+            return {"status": "CHILD-DIED"}
+        line = self._readline(budget)
+        if line is None:
+            died = self.p.poll() is not None
+            self.close()
+            if died:
+                return {"status": "CHILD-DIED"}
+            self.kills += 1
+            return {"status": "KILLED", "budget_s": round(budget, 2)}
+        return json.loads(line)
+
+    def close(self):
+        if self.p is not None:
+            try:
+                self.p.kill()
+                self.p.wait(10)
+            except Exception:  # noqa
+                pass
+        self.p = None
+
+
+def budget_for(items, nbytes):
+    return CHILD_BASE_S + CHILD_PER_ITEM_S * items + CHILD_PER_BYTE_S * nbytes
+
+
+# -- what the child does ------------------------------------------------------------------------
+SERVICE_TYPES = {
+    "pyatv.protocols.airplay": "_airplay._tcp.local", "pyatv.protocols.raop": "_raop._tcp.local",
+    "pyatv.protocols.companion": "_companion-link._tcp.local", "pyatv.protocols.mrp": "_mediaremotetv._tcp.local",
+    "pyatv.protocols.dmap": "_touch-able._tcp.local",
+}
+BASE_PROPS = {
+    "_airplay._tcp.local": {"deviceid": "AA:BB:CC:00:00:09", "features": "0x5A7FFFF7,0x1E", "model": "AppleTV6,2"},
+    "_raop._tcp.local": {"am": "AppleTV6,2", "tp": "UDP"},
+    "_companion-link._tcp.local": {"rpMRtID": "CID-9", "rpFl": "0x36782", "rpMd": "AppleTV6,2"},
+    "_mediaremotetv._tcp.local": {"Name": "Dev9", "UniqueIdentifier": "MRP-9", "SystemBuildVersion": "17K449"},
+    "_touch-able._tcp.local": {"CtlN": "Dev9"},
+}
+INSTANCE = {"_raop._tcp.local": "AABBCC000009@Dev9", "_touch-able._tcp.local": "DMAP0009_touch"}
+
+
+_SCANNER = []
+
+
+def child_svc(stype, props):
+    """One announced service with the given TXT properties through the real per-service pipeline of discovery:
+    handler (`handle_response`), device_info extractors and `service_info` (`discover`), `get_unique_id`."""
+    from ipaddress import IPv4Address
+    from harness import c12
+    from pyatv.core import mdns
+    from pyatv.helpers import get_unique_id
+    from pyatv.support.collections import CaseInsensitiveDict
+    if not _SCANNER:
+        scanner = c12.make_scanner(None)
+
+        async def process(timeout):
+            return None
+        scanner.process = process
+        _SCANNER.append(scanner)
+    scanner = _SCANNER[0]
+    scanner._found_devices.clear()           # a fresh scan: nothing found yet
+    scanner._properties.clear()
+    cprops = CaseInsensitiveDict(props)
+    service = mdns.Service(stype, INSTANCE.get(stype, "Dev9"), IPv4Address("10.0.0.9"), 7000, cprops)
+    scanner.handle_response(mdns.Response([service], False, cprops.get("model")))
+    coro = scanner.discover(0)               # no awaits that suspend: `process` is a no-op, service_info are plain
+    try:
+        coro.send(None)
+        coro.close()
+        raise RuntimeError("discover() suspended")
+    except StopIteration as done:
+        devices = done.value
+    get_unique_id(stype, service.name, cprops)
+    return len(devices)
+
+
+def child_scan(task):
+    desc, good = task["desc"], task["good"]
+    _, _, ref, _ = real_scan(good)
+    case, order, res, shown = real_scan(desc)
+    addrs = set(task["good_addrs"])
+    out = {"status": "ok", "error": res["error"], "want": repr(snapshot(ref)), "got": repr(snapshot(res, only=addrs)),
+           "want_empty": not snapshot(ref) or isinstance(snapshot(ref), str),
+           "returned": [str(c.address) for c in res["configs"]], "snap": shown["snap"], "line": None}
+    if not res["error"]:
+        from harness import c12
+        mode = desc["mode"]
+        mdesc = dict(desc, dgrams=[d for d in desc["dgrams"] if not (mode == "u" and "raw" in d)])
+        mcase = case if len(mdesc["dgrams"]) == len(desc["dgrams"]) else c12.Case(mdesc)
+        out["line"] = mcase.line(list(range(len(mdesc["dgrams"]))))
+    return out
+
+
+def child_fn(name, text):
+    from pyatv.protocols.airplay import utils
+    from pyatv.support import device_info, http
+    if name == "flags":
+        return utils._get_flags({"flags": text})
+    if name == "features":
+        return int(utils.parse_features(text))
+    if name == "version":
+        return device_info.lookup_version(text)
+    if name == "os":
+        return device_info.lookup_os(text).name
+    if name == "http-request":
+        return http.parse_request(text.encode("utf-8", "surrogateescape"))[0] is not None
+    if name == "http-response":
+        return http.parse_response(text.encode("utf-8", "surrogateescape"))[0] is not None
+    if name == "dns-label":
+        from pyatv.support import dns
+        raw = text.encode("utf-8", "surrogateescape")[:63]
+        return dns.parse_domain_name(io.BytesIO(bytes([len(raw)]) + raw + b"\x00"))
+    raise KeyError(name)
+
+
+def child_main():
+    import logging
+    from harness.core import use_repo
+    use_repo()
+    logging.disable(logging.CRITICAL)
+    import pyatv  # noqa: imported before answering "ready"
+    from harness import c12  # noqa
+    out = sys.stdout
+    out.write("ready\n")
+    out.flush()
+    for line in sys.stdin:
+        task = json.loads(line)
+        res = {"status": "ok", "items": []}
+        try:
+            if task["op"] == "svc":
+                for props in task["props"]:
+                    try:
+                        res["items"].append("ok %d" % child_svc(task["type"], props))
+                    except RecursionError:
+                        res["items"].append("err:RecursionError")
+                    except Exception as e:  # noqa: observation
+                        res["items"].append("err:" + type(e).__name__)
+            elif task["op"] == "fn":
+                for text in task["texts"]:
+                    try:
+                        child_fn(task["fn"], text)
+                        res["items"].append("ok")
+                    except Exception as e:  # noqa: observation
+                        res["items"].append("err:" + type(e).__name__)
+            elif task["op"] == "scan":
+                logging.disable(logging.CRITICAL)
+                res = child_scan(task)
+            else:
+                res = {"status": "bad-op"}
+        except BaseException as e:  # noqa
+            res = {"status": "FATAL:" + type(e).__name__, "detail": str(e)[:300]}
+        out.write(json.dumps(res) + "\n")
+        out.flush()
+
+
+# -- adversarial string content -----------------------------------------------------------------
+def hostile_strings(ctx):
+    """near-matches of every regular expression the code applies to network strings (derived from the patterns
+    extracted from the tree under test) + long digit runs / repeated separators for the numeric parsers"""
+    from tools.gen import c05 as gen
+    T = ctx.thorough
+    pumps = ((1, 1), (40, 1), (1, 40), (6, 6), (2, 20), (60, 2)) if T else ((40, 1), (1, 40), (6, 6))
+    out, seen = [], set()
+    sites = gen.sites()
+    for _, _, _, pat in sites:
+        for s_ in gen.attack_strings(pat, pumps=pumps):
+            if not T and not (s_.endswith("x") or s_[-1:].isalnum() or s_.endswith("!")):
+                continue
+            if s_ not in seen:
+                seen.add(s_)
+                out.append(s_)
+    generic = ["1" * 60, "1" * 240, "1," * 100, "," * 120, "0x" + "f" * 200, "0x" + "f" * 8 + ",0x" * 60, "0x" * 100,
+               " " * 200, "-" * 120, "a" * 240, "A1" * 100, "=" * 50, "true" * 50, "Mac" * 60, "1.2." * 50, "é" * 100,
+               "0" * 4000, "9" * 5000, "1e" * 100, "%s" * 50, "\\d+" * 20, "(" * 100, "", "0", "x"]
+    for g in generic:
+        if g not in seen:
+            seen.add(g)
+            out.append(g)
+    ctx.notes["regex_sites"] = sorted({"%s.%s: %s" % (m.replace("pyatv.", ""), f, p) for m, f, _, p in sites})
+    return out
+
+
+def run_strings(ctx, child):
+    """Every TXT property the protocol modules interpret x every hostile string, through the real per-service
+    discovery pipeline, and the string-level parsers directly — in the child, under a wall-clock budget."""
+    from tools.gen import c05 as gen
+    strings = hostile_strings(ctx)
+    keys = gen.txt_keys()
+    ctx.notes["txt_keys"] = {k.replace("pyatv.protocols.", ""): v for k, v in keys.items()}
+    stuck = 0
+    culprits = []          # (protocol module, key, text) on which the per-service pipeline did not return
+
+    def judge(sig_base, case_of, answers, texts, res, required):
+        nonlocal stuck
+        if res["status"] == "KILLED":
+            stuck += 1
+            # find the offending string: bisect with single-item calls (at most a few, each may be killed)
+            culprit = None
+            for t in texts[: 400]:
+                r1 = single(t)
+                if r1["status"] != "ok":
+                    culprit = t
+                    break
+            if culprit is not None:
+                culprits.append((sig_base, culprit))
+            ctx.fail(sig_base + ":does-not-finish", case_of(culprit if culprit is not None else texts[0]),
+                     "no answer within %.1f s (child killed)" % res["budget_s"], required,
+                     "a single call on a network-controlled string did not return within a wall-clock budget proportional "
+                     "to the input size (time spent inside C code: regex / int / codec)")
+            return
+        if res["status"] != "ok":
+            ctx.fail(sig_base + ":child-failed", case_of(texts[0]), res["status"], required, "child process failed")
+            return
+        for t, a in zip(texts, res["items"]):
+            answers(t, a)
+
+    for proto, stype in SERVICE_TYPES.items():
+        for key in keys.get(proto, []):
+            if stuck >= 3:
+                ctx.note("strings-skipped-after-kills")
+                break
+            base = dict(BASE_PROPS[stype])
+            base = {k: v for k, v in base.items() if k.lower() != key.lower()}
+            props = [dict(base, **{key: t}) for t in strings]
+
+            def single(t, stype=stype, base=base, key=key):
+                return child.call({"op": "svc", "type": stype, "props": [dict(base, **{key: t})]}, budget_for(1, len(t)))
+
+            def answers(t, a, stype=stype, key=key):
+                ctx.note("txt:%s" % ("ok" if a.startswith("ok") else a))
+                ctx.case(["txt", stype, key, t], True)
+                if not a.startswith("ok"):
+                    ctx.fail("strings:%s:%s:raises-out-of-discover" % (stype, key), {"type": stype, "key": key, "text": t}, a,
+                             "handle_response / discover return", "TXT content of one service makes discover() raise")
+            res = child.call({"op": "svc", "type": stype, "props": props}, budget_for(len(props), sum(map(len, strings))))
+            judge("strings:%s:%s" % (stype, key), lambda t, stype=stype, key=key: {"type": stype, "key": key, "text": t},
+                  answers, strings, res, "handle_response + discover() return within the budget")
+            ctx.note("txt-key:%s" % stype)
+    for fn in ("flags", "features", "version", "os", "http-request", "http-response", "dns-label"):
+        if stuck >= 3:
+            break
+        texts = list(strings)
+        if fn.startswith("http"):
+            first = "%s\r\nContent-Length: 0\r\n\r\n"
+            texts = [first % t for t in strings if "\r" not in t and "\n" not in t] + \
+                    ["GET / HTTP/1.1\r\nContent-Length: %s\r\n\r\n" % t for t in strings if "\r" not in t and "\n" not in t]
+        if fn == "dns-label":
+            texts = ["xn--" + t for t in strings] + strings
+
+        def single(t, fn=fn):
+            return child.call({"op": "fn", "fn": fn, "texts": [t]}, budget_for(1, len(t)))
+
+        def answers(t, a, fn=fn):
+            ctx.note("fn:%s:%s" % (fn, "ok" if a == "ok" else "raises"))
+            ctx.case(["fn", fn, t], True)
+        res = child.call({"op": "fn", "fn": fn, "texts": texts}, budget_for(len(texts), sum(map(len, texts))))
+        judge("strings:fn:%s" % fn, lambda t, fn=fn: {"fn": fn, "text": t}, answers, texts, res,
+              "returns or raises an ordinary exception within the budget")
+    found = []
+    for sig_base, text in culprits:
+        parts = sig_base.split(":")
+        if len(parts) == 3 and parts[1] in SERVICE_TYPES.values():
+            found.append(([p_ for p_, t_ in SERVICE_TYPES.items() if t_ == parts[1]][0], parts[2], text))
+    return strings, found
+
+
+# ---------------------------------------------------------------------------------------------
 # discovery
 # ---------------------------------------------------------------------------------------------
 BAD_ADDR = 9
@@ -972,55 +1311,85 @@ def snapshot(res, only=None):
     return sorted(out, key=repr)
 
 
-def run_discovery(ctx):
-    del STUCK_SCANS[:]
+def string_payloads(ctx, rng, strings, culprits=()):
+    """hostile hosts whose announcement is well-formed DNS with one adversarial TXT value"""
+    from harness import c12
+    from tools.gen import c05 as gen
+    dev = {"addr": BAD_ADDR, "host": BAD_ADDR, "name": "Evil", "info": None, "linklocal": False,
+           "sleeping": False, "ttl": 120}
+    types = {"pyatv.protocols.airplay": (c12.T_AIRPLAY, "Evil"), "pyatv.protocols.raop": (c12.T_RAOP, "EEEEEE000009@Evil"),
+             "pyatv.protocols.companion": (c12.T_COMPANION, "Evil"), "pyatv.protocols.mrp": (c12.T_MRP, "Evil")}
+    keys = gen.txt_keys()
+    combos = [(proto, key) for proto in types for key in keys.get(proto, [])]
+    long_ = [t for t in strings if 20 <= len(t.encode("utf-8")) <= 200 and "\x00" not in t] or ["1" * 50]
+    out = []
+    picks = [(p_, k_, t_) for p_, k_, t_ in culprits if p_ in types and len(t_.encode("utf-8")) <= 240][:2]
+    for i in range(ctx.scale(10, 40)):
+        proto, key = rng.choice(combos)
+        picks.append((proto, key, rng.choice(long_)))
+    for i, (proto, key, text) in enumerate(picks):
+        t, inst = types[proto]
+        base = [(k, v) for k, v in BASE_PROPS[SERVICE_TYPES[proto]].items() if k.lower() != key.lower()]
+        recs = c12.svc_records(dev, {"type": t, "inst": inst, "port": 7100, "props": base + [(key, text)]})
+        out.append(("txt-string-%d:%s:%s" % (i, proto.split(".")[-1], key), [("recs", recs)]))
+    return out
+
+
+def run_discovery(ctx, child, strings, culprits=()):
     rng = ctx.rng.fork("discovery")
-    payloads = hostile_payloads(rng)
+    payloads = string_payloads(ctx, rng.fork("strings"), strings, culprits) + hostile_payloads(rng)
     lines, pending = [], []
+    stuck = 0
     for mode in ("m", "u"):
         for ndev in range(1, 5):
             reps = ctx.scale(1, 3)
             for rep in range(reps):
                 devs = good_devices(rng.fork(mode, ndev, rep), ndev)
                 for payload in payloads:
-                    if len(STUCK_SCANS) >= 3:
+                    if payload[0].startswith("txt-string") and (ndev + rep) % 2 and not ctx.thorough:
+                        continue
+                    if stuck >= 3:
                         ctx.note("discovery-skipped-after-hangs")
                         continue
                     crng = rng.fork(mode, ndev, rep, payload[0])
                     desc, good = build_case(crng, mode, devs, payload)
-                    _, _, ref, _ = real_scan(good)
-                    case, order, res, shown = real_scan(desc)
-                    good_addrs = {"10.0.0.%d" % d["addr"] for d in devs}
-                    small = {"mode": mode, "devices": ndev, "hostile": payload[0], "desc": desc}
+                    good_addrs = sorted("10.0.0.%d" % d["addr"] for d in devs)
+                    nbytes = len(json.dumps(desc))
+                    res = child.call({"op": "scan", "desc": desc, "good": good, "good_addrs": good_addrs},
+                                     budget_for(len(desc["dgrams"]), nbytes) + SCAN_WATCHDOG_S * 2)
+                    label = payload[0].split(":")[0].rstrip("0123456789").rstrip("-") if payload[0].startswith("txt-string") else payload[0]
+                    small = {"mode": mode, "devices": ndev, "hostile": payload[0], "desc": desc, "good": good,
+                             "good_addrs": good_addrs}
                     ctx.note("discovery:" + mode)
-                    ctx.note("hostile:" + payload[0])
+                    ctx.note("hostile:" + label)
                     ctx.note("good-devices:%d" % ndev)
+                    if res["status"] != "ok":
+                        stuck += 1
+                        ctx.case([mode, ndev, rep, payload[0], desc["dgrams"]], True)
+                        ctx.fail("discovery:%s:%s:scan-does-not-finish" % (mode, label), small, res["status"],
+                                 "scan returns the well-formed devices", "scan with one hostile host did not return within "
+                                 "the wall-clock budget (%s)" % payload[0])
+                        continue
                     ctx.case([mode, ndev, rep, payload[0], desc["dgrams"]], True,
-                             sample={"mode": mode, "good": ndev, "hostile": payload[0],
-                                     "returned": [str(c.address) for c in res["configs"]]})
-                    want = snapshot(ref)
-                    got = snapshot(res, only=good_addrs)
-                    if isinstance(want, str) or not want:
-                        ctx.disagree(small, want, "reference scan of the good devices returns them", where="generator")
-                    if got != want:
-                        ctx.fail("discovery:%s:%s:hostile-host-changes-result" % (mode, payload[0]), small, repr(got)[:700], repr(want)[:700],
-                                 "configurations of the well-formed devices differ from the scan without the hostile host "
-                                 "(%s)" % payload[0])
-                    # correspondence with the model (garbage datagrams: multicast = empty datagram, unicast = dropped)
-                    mdesc = dict(desc, dgrams=[d for d in desc["dgrams"] if not (mode == "u" and "raw" in d)])
-                    mcase = case if len(mdesc["dgrams"]) == len(desc["dgrams"]) else None
-                    if not res["error"]:
-                        from harness import c12
-                        mcase = mcase or c12.Case(mdesc)
-                        lines.append(mcase.line(list(range(len(mdesc["dgrams"])))))
-                        pending.append((small, shown))
+                             sample={"mode": mode, "good": ndev, "hostile": payload[0], "returned": res["returned"]})
+                    if res["error"] == "Hang":
+                        stuck += 1
+                    if res["want_empty"]:
+                        ctx.disagree(small, res["want"], "reference scan of the good devices returns them", where="generator")
+                    if res["got"] != res["want"]:
+                        ctx.fail("discovery:%s:%s:hostile-host-changes-result" % (mode, label), small, res["got"][:700],
+                                 res["want"][:700], "configurations of the well-formed devices differ from the scan without "
+                                 "the hostile host (%s)" % payload[0])
+                    if res["line"] is not None:
+                        lines.append(res["line"])
+                        pending.append((small, res["snap"]))
     from harness import c12
-    for (small, shown), ans in zip(pending, ctx.lean(lines)):
+    for (small, snap), ans in zip(pending, ctx.lean(lines)):
         model = c12.parse_answer(ans)
         if model is None:
-            ctx.disagree(small, shown["snap"], ans, where="discovery driver answer")
-        elif shown["snap"] != model["snap"]:
-            ctx.disagree(small, shown["snap"], model["snap"], where="discovery snapshot")
+            ctx.disagree(small, snap, ans, where="discovery driver answer")
+        elif snap != model["snap"]:
+            ctx.disagree(small, snap, model["snap"], where="discovery snapshot")
         ctx.validated()
 
 
@@ -1048,13 +1417,36 @@ def run(ctx):
     finally:
         signal.setitimer(signal.ITIMER_REAL, 0)
         signal.signal(signal.SIGALRM, old)
-    run_discovery(ctx)
+    child = Child()
+    try:
+        strings, culprits = run_strings(ctx, child)
+        run_discovery(ctx, child, strings, culprits)
+    finally:
+        child.close()
 
 
 def replay(ctx, failure):
     """Re-run one recorded oracle failure on the real code."""
     case = failure["case"]
     sig = failure["sig"]
+    if sig.startswith("strings:") or sig.endswith(":scan-does-not-finish"):
+        child = Child()
+        try:
+            if sig.startswith("strings:fn:"):
+                r = child.call({"op": "fn", "fn": case["fn"], "texts": [case["text"]]}, budget_for(1, len(case["text"])))
+            elif sig.startswith("strings:"):
+                stype = case["type"]
+                base = {k: v for k, v in BASE_PROPS.get(stype, {}).items() if k.lower() != case["key"].lower()}
+                r = child.call({"op": "svc", "type": stype, "props": [dict(base, **{case["key"]: case["text"]})]},
+                               budget_for(1, len(case["text"])))
+                if r["status"] == "ok" and sig.endswith("raises-out-of-discover"):
+                    return not r["items"][0].startswith("ok")
+            else:
+                r = child.call({"op": "scan", "desc": case["desc"], "good": case["good"], "good_addrs": case["good_addrs"]},
+                               budget_for(len(case["desc"]["dgrams"]), 2000) + SCAN_WATCHDOG_S * 2)
+            return r["status"] != "ok"
+        finally:
+            child.close()
     if sig.startswith("discovery:"):
         desc = case["desc"]
         good = dict(desc, dgrams=[d for d in desc["dgrams"] if d["src"] != BAD_ADDR],
@@ -1086,3 +1478,8 @@ def replay(ctx, failure):
         return True
     _, r, _ = fn()
     return not ordinary(r["status"]) or sig.endswith("more-work-than-bound")
+
+
+if __name__ == "__main__":
+    if "--child" in sys.argv:
+        child_main()
